@@ -33,7 +33,7 @@ CLAIMED["C10"] = ("model_checking",
     "DESIGN.md 4/C10")
 
 CLAIMED["C01"] = ("model_checking",
-  "TLA+ spec NoiseHS (symbolic Dolev-Yao Impl layer of XX + libp2p payload, Prop layer Allowed/Auth) explored completely by TLC; every scenario concretised against the real noise::handshake over an in-memory duplex with a scripted MITM (peer: real handshake, libp2p-noise, or a snow-based rogue with hand-encoded payloads), dialed-peer cases (none / same key / other key x inline / SHA-256 form) through two real Litep2p nodes over TCP and WebSocket and through the real negotiate_connection of both transports; recorded outcomes validated by TLC against Allowed",
+  "TLA+ spec NoiseHS (symbolic Dolev-Yao Impl layer of XX + libp2p payload, Prop layer Allowed/Auth) explored completely by TLC; every scenario concretised against the real noise::handshake over an in-memory duplex with a scripted MITM (peer: real handshake, libp2p-noise, or a snow-based rogue with hand-encoded payloads), dialed-peer cases (none / same key / other key x inline / SHA-256 form x dialed address form ip4 / ip6 / dns / dns4 / dns6) through two real Litep2p nodes over TCP and WebSocket and through the real negotiate_connection of both transports; recorded outcomes validated by TLC against Allowed",
   "TLC enumerates the whole symbolic scenario space (MITM corrupt/truncate/extend/substitute/replay/drop on each field of the 3 messages, 11 rogue payloads, dial expectations, 4 fragmentations) and checks Auth/NoHang/Agreement; each scenario is executed on the real code at every byte offset of the field (thorough; quick samples offsets) and each observed outcome must be allowed by the property-level verdict: ok only with exactly the proven peer, err whenever a visible byte was altered, the payload is forged/unbound, or the dialed id differs; honest runs must succeed.",
   "ideal cryptography assumed; one MITM move or one rogue per handshake; deadlocks resolved by closing the pipe (no timers); small-order identity keys are accepted like the reference implementation does (recorded, not judged); QUIC authenticates with TLS and is outside C01",
   "DESIGN.md 4/C01, 10")
@@ -58,7 +58,7 @@ CLAIMED["C08"] = ("model_checking",
   "scope: at most two overlapping connections per peer (third-connection runs judged for alternation/at-most-once/ids only); scripted legal connections; keep-alive expiry by clock-shift hook; NET exactly-once only on single-connection links with 6x timeout slack; small-scope constants",
   "DESIGN.md 4/C08, 10")
 CLAIMED["C13"] = ("model_checking",
-  "TLA+ monitor ReqResp + implementation-shaped model ReqRespMC checked by TLC; scripts derived from TLC behaviours, fixed shapes and seeded random scripts executed on networks of real litep2p nodes over loopback TCP / WebSocket / QUIC under a seeded schedule-perturbing executor with a byte-offset-cutting proxy (tcp, ws; on quic the remote node is dropped or frozen instead); every recorded network validated by TLC against the monitor",
+  "TLA+ monitor ReqResp + implementation-shaped model ReqRespMC checked by TLC; scripts derived from TLC behaviours, fixed shapes and seeded random scripts executed on networks of real litep2p nodes over loopback TCP / WebSocket / QUIC under a seeded schedule-perturbing executor with a proxy that cuts or stalls a direction at a byte offset (tcp, ws; on quic the remote node is dropped or frozen instead), incl. the manager-hold close window and requests whose write stalls; every recorded network validated by TLC against the monitor",
   "TLC explores all interleavings of user commands (<=3 requests incl. two to a peer still being dialed, cancel), protocol loop, dial/connection/substream outcomes and responder behaviours for 1-2 peers and checks exactly-one-terminal, payload provenance, seen-once, the inbound bound and quiescence; ~500 (quick) / ~4600 (thorough) real multi-node executions are judged event by event by the same monitor",
   "silence judged with >=3x slack on the configured timeouts, lagging networks discarded and re-run; small-scope TLC constants; MODE=impl drift validation not feasible (silent-step blow-up); environment = manager guarantees of C05/C07/C08",
   "DESIGN.md 4/C13, 10")
@@ -89,7 +89,7 @@ CLAIMED["C20"] = ("model_checking",
   "DESIGN.md 4/C20, 10")
 
 CLAIMED["C11"] = ("model_checking",
-  "TLA+ monitor Notif + implementation-shaped two-endpoint model NotifMC checked by TLC; TLC behaviours, scenario families and a seeded random driver executed on real 2-3 node litep2p networks over loopback TCP / WebSocket / QUIC (public API, schedule-perturbing executor, TCP proxy faults); every endpoint's command/event log validated by TLC against the monitor",
+  "TLA+ monitor Notif + implementation-shaped two-endpoint model NotifMC checked by TLC; TLC behaviours, scenario families and a seeded random driver executed on real 2-3 node litep2p networks over loopback TCP / WebSocket / QUIC (public API, schedule-perturbing executor, TCP proxy faults incl. one-direction stalls that make a pending outbound substream time out while the connection stays up); every endpoint's command/event log validated by TLC against the monitor",
   "TLC explores all interleavings of open/close/validation commands, handshake steps, connection-task steps, cuts, reconnects and substream failures on a model transcribed handler by handler (incl. panic arms); the user-visible grammar (alternation, no failure while open, consent before Opened, one answer per obligated open at quiescence, closed after connection loss, no panic, bystander still served) is checked in the model and on each real endpoint log.",
   "obligations only for opens issued in a clean, connected view (faults/rejections void them); quiescence = 60 s silence, runs with a starved driver not judged; small-scope constants; 5 s no-inbound timer covered in the model only",
   "DESIGN.md 4/C11, 10")
